@@ -34,8 +34,9 @@ def jobs(tier):
                          functions=["LeaveOneOut"], bound="concrete shape/thread count %s; data symbolic; residual identity split A (y=0) / B (prediction=0)" % tag,
                          clause="LOO: training operands = data minus held-out object, each object once, prediction and residual wiring (%s learner)" % ("PLS" if nlv else "MLR")))
     # KFoldCV with user labels: unbalanced, non-contiguous (an unused label value gives an empty fold), one fold only
-    kcfg = [("{0,2,0,2}", 4, 2), ("{1,1,0,1}", 4, 3), ("{0,0,0}", 3, 2), ("{2,0,1,1,0}", 5, 2)] if tier == "quick" else \
-           [("{0,2,0,2}", 4, 2), ("{1,1,0,1}", 4, 3), ("{0,0,0}", 3, 2), ("{2,0,1,1,0}", 5, 2), ("{0,1,2,3}", 4, 4), ("{3,0,0,3}", 4, 1)]
+    # labels starting at 1 / with gaps leave empty folds in the middle of a thread round
+    kcfg = [("{0,2,0,2}", 4, 2), ("{1,1,0,1}", 4, 3), ("{0,0,0}", 3, 2), ("{2,0,1,1,0}", 5, 2), ("{1,2,1,2}", 4, 2), ("{1,3,3,1}", 4, 3)] if tier == "quick" else \
+           [("{0,2,0,2}", 4, 2), ("{1,1,0,1}", 4, 3), ("{0,0,0}", 3, 2), ("{2,0,1,1,0}", 5, 2), ("{1,2,1,2}", 4, 2), ("{1,3,3,1}", 4, 3), ("{0,1,2,3}", 4, 4), ("{3,0,0,3}", 4, 1)]
     for (lab, n, nth) in kcfg:
         for (xc, ny, nlv) in [(2, 1, 0), (2, 2, 2)]:
             for inst in ("A", "B"):
